@@ -8,10 +8,17 @@
     becomes one implementation test on the real pexpect.screen.screen / pexpect.ANSI.ANSI object
     built in the pre-state; the full projected state afterwards must be one of the post-states TLC
     computed.  C19 also calls every read accessor in every state of the graph and compares with
-    the table TLC evaluated from the accessor definitions (spec/ScreenAccessors.tla).
+    the table TLC evaluated from the accessor definitions (spec/ScreenAccessors.tla), and repeats
+    every character-operation transition with an argument the screen rejects (bytes on
+    encoding=None, undecodable bytes under strict): the state must be the pre-state (RejectedS).
  3. code -> spec: runs of the real objects (TLC -simulate behaviours and seeded grammar-generated
     input under every split into <= 4 pieces; seeded random operation / input sequences on 24x80
-    and odd sizes) are recorded and validated by TLC against spec/ScreenAnsiTrace.tla.
+    and odd sizes, with rejected operations followed by reads through every accessor) are recorded
+    and validated by TLC against spec/ScreenAnsiTrace.tla.  C18 also records interleaved histories:
+    2-3 terminals alive at once (utf-8, utf-16-le, shift_jis, gb18030; replace / ignore / strict),
+    their pieces - cut inside multi-byte characters, possibly ending in a truncated character - fed
+    alternately; the trace carries the terminal id, the trace specification keeps one reference
+    state per terminal and requires each terminal to end like a fresh one fed the same input at once.
  4. binding self-test: a corrupted expected post-state / a corrupted recorded observation must be
     noticed.
 
@@ -1307,11 +1314,10 @@ def run_c19(ctx):
     ctx.note('rejected operations in those sequences: %d operations refused by the screen (%s), each followed by reads through the '
              'accessors (%d reads): TLC requires grid, cursor, saved cursor and region unchanged and the reads to describe that grid' % (
                  sum(rej_ev.values()), ', '.join('%s x%d' % kv for kv in sorted(rej_ev.items())), reads_after))
-    st3 = rejected_self_test(ctx)
-    ctx.note('binding self-test (rejected operation): ' + ', '.join('%s -> %s' % kv for kv in sorted(st3.items())))
     # binding self-test 2: a corrupted observation in a recorded trace must be rejected
-    st2 = trace_self_test(ctx, 'C19')
+    st2, st3 = side_by_side(lambda: trace_self_test(ctx, 'C19'), lambda: rejected_self_test(ctx))
     ctx.note('binding self-test (trace): ' + ', '.join('%s -> %s' % kv for kv in sorted(st2.items())))
+    ctx.note('binding self-test (rejected operation): ' + ', '.join('%s -> %s' % kv for kv in sorted(st3.items())))
     for clause, case, detail, sig in total.fail + tstats.get('fails', []):      # minimal (per-transition) cases first
         ctx.fail(clause, case, detail, sig)
     extra = sum(total.nfail.values()) - len(total.fail)
@@ -1357,6 +1363,13 @@ def run_c19(ctx):
         'character arguments are single characters given as str or as bytes in the object encoding',
     ], wall_s=ctx.wall(), violations=nviol_all)
     return status
+
+
+def side_by_side(*fns):
+    """the self-tests are independent TLC runs (file names differ by tag): run them at the same time"""
+    from concurrent.futures import ThreadPoolExecutor
+    with ThreadPoolExecutor(len(fns)) as ex:
+        return [f.result() for f in [ex.submit(fn) for fn in fns]]
 
 
 def rejected_self_test(ctx):
@@ -1943,9 +1956,8 @@ def run_c18(ctx):
     ctx.note('%d recorded runs (%d write() events) on %s validated by TLC in %.0fs (recording %.0fs): %s' % (
         tstats['traces'], tstats['events'], ', '.join('%dx%d' % s for s in sorted(corpus)), time.time() - t0, gen_s,
         ', '.join('%s x%d' % kv for kv in sorted(tstats['verdicts'].items()))))
-    st2 = trace_self_test(ctx, 'C18')
+    st2, st3 = side_by_side(lambda: trace_self_test(ctx, 'C18'), lambda: multi_self_test(ctx))
     ctx.note('binding self-test (trace): ' + ', '.join('%s -> %s' % kv for kv in sorted(st2.items())))
-    st3 = multi_self_test(ctx)
     ctx.note('binding self-test (interleaved history): ' + ', '.join('%s -> %s' % kv for kv in sorted(st3.items())))
     if ctx.drift:
         d = (total.drift + tstats['drift_samples'])[:3]
